@@ -1419,6 +1419,9 @@ impl<'db, 'mt> ConstFoldingContext<'db, 'mt> {
             }
             VarInfo::Snapshot(info) => {
                 let desnap_ty = *extract_matches!(ty.long(self.db), TypeLongId::Snapshot);
+                // The specialized function materializes the constant and only uses its snapshot,
+                // so the (unused) constant itself must be droppable.
+                require(self.db.droppable(desnap_ty).is_ok())?;
                 // Use a local accumulator to avoid mutating unknown_vars if we return None.
                 let mut local_unknown_vars: Vec<VarUsage<'db>> = Vec::new();
                 let inner = self.try_get_specialization_arg(
